@@ -65,14 +65,7 @@ Lemma mk_hex_rep : forall s,
                        end.
 Proof. reflexivity. Qed.
 
-Lemma append_operand_rep : forall isand ops rt b,
-  append_operand isand ops rt b =
-  match rt, rt_of_v b with
-  | Some r, Some r' =>
-      match (if isand then set_inter r r' else set_union r r') with
-      | [] => Raise ValueError
-      | _ => y <- expr_of b ;; Ok (VExpr (EBool isand (ops ++ [y])) (Some (if isand then set_inter r r' else set_union r r')))
-      end
-  | _, _ => Raise AttributeError
-  end.
+Lemma append_operand_rep : forall newop isand ops rt b,
+  append_operand newop isand ops rt b =
+  (y <- expr_of b ;; r <- bool_rts_e newop None (ops ++ [y]) ;; Ok (VExpr (EBool newop (ops ++ [y])) (Some r))).
 Proof. reflexivity. Qed.
